@@ -127,8 +127,10 @@ func (dht *IpfsDHT) optimisticProvide(outerCtx context.Context, keyMH multihash.
 		return err
 	}
 
-	// initialize context that finishes when this function returns
-	innerCtx, innerCtxCancel := context.WithCancel(outerCtx)
+	// initialize context that finishes when this function returns. It must not
+	// be derived from outerCtx: otherwise both Done channels below become ready
+	// together when outerCtx is cancelled, and the select picks one at random.
+	innerCtx, innerCtxCancel := context.WithCancel(context.Background())
 	defer innerCtxCancel()
 
 	go func() {
